@@ -8,7 +8,7 @@ REPO=${REPO:-/repo}
 SIM=$(cd "$(dirname "$0")" && pwd)
 HC=${LESIM_CACHE:-$(dirname "$SIM")/build/harness}
 mkdir -p "$OUT" "$HC"
-WRAPS="malloc calloc realloc free strdup strndup asprintf vasprintf getline getdelim lstat stat fopen fclose scandir realpath"
+WRAPS="malloc calloc realloc free strdup strndup asprintf vasprintf getline getdelim __getdelim lstat stat fopen fclose scandir realpath"
 WRAPFLAGS=""; for w in $WRAPS; do WRAPFLAGS="$WRAPFLAGS -Wl,--wrap=$w"; done
 COMMON="-g -fno-omit-frame-pointer -D_GNU_SOURCE -D_REENTRANT=1 -I$REPO/include -I$REPO/lib"
 case $FL in
